@@ -268,6 +268,39 @@ def rule_geometry(ctx, F):
     ctx.gate("P3", fn, later, [("a child lying before the edit start is not reshaped", "child_right.bytes > edit.start.bytes", False)], accept_desc="neutralising the child's edit")
 
 
+def rule_length_helpers(ctx, F):
+    """P4: the position arithmetic the edit relies on.  length_saturating_sub yields the zero length
+    (bytes *and* row/column) unless the minuend is larger; point_add carries a column only within a row;
+    point_sub drops the subtrahend's column when the rows differ."""
+    fn = ctx.need_fn(F, "length_saturating_sub", "P4")
+    if fn:
+        sub = [pt for pt, e in fn.points() if e.get("k") == "ret" and callee_name(strip(e["e"])) == "length_sub"]
+        zero = [pt for pt, e in fn.points() if e.get("k") == "ret" and callee_name(strip(e["e"])) == "length_zero"]
+        if not sub or not zero:
+            ctx.bad("P4", "length_saturating_sub:saturates", "length_saturating_sub no longer has both outcomes (the difference / the zero length): when the minuend is not larger, a stray column survives "
+                    "and every later node on that row reports a wrong column after an edit")
+        else:
+            ctx.gate("P4", fn, sub, [("the difference is taken only when the minuend is larger", "len1.bytes > len2.bytes", True)], accept_desc="returning the difference")
+    fn = ctx.need_fn(F, "point_sub", "P4")
+    if fn:
+        keep = [pt for pt, e in fn.points() if e.get("k") == "ret" and M(fn).match("point__new(a.row - b.row, a.column)", strip(e["e"]))]
+        same = [pt for pt, e in fn.points() if e.get("k") == "ret" and pt not in keep]
+        if keep and same:
+            ctx.gate("P4", fn, keep, [("across rows the column of the minuend is kept", "a.row > b.row", True)], accept_desc="keeping the column")
+            ctx.gate("P4", fn, same, [("within a row (or backwards) columns are subtracted with saturation", "a.row > b.row", False)], accept_desc="subtracting columns")
+        else:
+            ctx.bad("P4", "point_sub:two-cases", "point_sub no longer distinguishes `a.row > b.row` (keep a.column) from the same-row case")
+    fn = ctx.need_fn(F, "point_add", "P4")
+    if fn:
+        r1 = [pt for pt, e in fn.points() if e.get("k") == "ret" and M(fn).match("point__new(a.row + b.row, b.column)", strip(e["e"]))]
+        r2 = [pt for pt, e in fn.points() if e.get("k") == "ret" and M(fn).match("point__new(a.row, a.column + b.column)", strip(e["e"]))]
+        if r1 and r2:
+            ctx.gate("P4", fn, r1, [("adding rows restarts the column", "b.row > 0", True)], accept_desc="taking b's column")
+            ctx.gate("P4", fn, r2, [("columns add up only within one row", "b.row > 0", False)], accept_desc="adding columns")
+        else:
+            ctx.bad("P4", "point_add:two-cases", "point_add no longer has the two cases (b.row > 0 → b.column, else a.column + b.column)")
+
+
 def run(ctx):
     for cfg in configs(ctx):
         ctx.config = cfg
@@ -278,6 +311,7 @@ def run(ctx):
         rule_node_edit(ctx, F)
         rule_range_edit(ctx, F)
         rule_geometry(ctx, F)
+        rule_length_helpers(ctx, F)
     try:
         import rsrules
         rsrules.c10_rust(ctx)
